@@ -569,7 +569,7 @@ def run(ctx):
     if depth() >= 2:
         ex = [c for c in exhaustive_cases(jr, 5, ('loose',), False, thin=2) if len(c['members']) == 5]
         evaluate(ctx, ex, res, 'exhaustive_len_5_loose_every_2nd')
-    ngen = (3000, 30000, 300000)[depth()]
+    ngen = (8000, 30000, 300000)[depth()]
     gen = [random_case(rng, jr) for _ in range(ngen)]
     evaluate(ctx, gen, res, 'generated')
     for c in gen[:2]:
